@@ -240,6 +240,19 @@ def normalValue (bt : Nat) (isBool isArray : Bool) (v : Value) : Value :=
     | [x] => scalarOf bt isBool x
     | xs => sliceOf bt isBool xs
 
+/-- the NUL-terminated segments the bytes of a string value hold, EMPTY ONES INCLUDED (what is on the wire) -/
+def segments (v : Value) : List (List Nat) := splitNul [] (strData v)
+
+/-- **the normal form WITHOUT the decoder's dropping of empty strings**: as `normalValue`, except that a string array read
+in array mode is the list of ALL its NUL-terminated segments — an empty string inside an array (a lone NUL on the wire, which
+the encoder does write) keeps its place. Only what the wire cannot carry is identified: `[]` ≅ `[""]` ≅ `""` (all three are written
+as one NUL: the representative is `[]`), a string with an inner NUL ≅ its pieces. `normalValue` additionally drops the empty segments (rule (c) of DESIGN
+§3: decoder behaviour — value_unmarshal.go "only if not an invalid string" — not a wire limit: finding KF-C01-emptystr). -/
+def strictValue (bt : Nat) (isBool isArray : Bool) (v : Value) : Value :=
+  if bt = btString ∧ isArray = true ∧ isStr v = true then
+    .sliceString (if segments v == [[]] then [] else segments v)
+  else normalValue bt isBool isArray v
+
 /-- how the decoder decides "array" for a field it has no profile entry for (unknown fields, developer fields):
 from the size for numbers, from the number of terminated non-empty pieces for strings -/
 def inferArray (bt : Nat) (v : Value) : Bool :=
@@ -345,6 +358,37 @@ def ofDecoded (m : DecApi.Msg) : Message :=
          value := d.value, isExpanded := d.expanded } : Field)),
     devFields := m.devs.map (fun d => ({ devIdx := d.idx, num := d.num, value := d.value } : DevField)) }
 
+/-- the decoded sequences handed back to the encoder: one `proto.FIT` per sequence, under the header members the decoder
+returned, the messages as they are -/
+def backFiles (fits : List DecApi.Fit) : List FileIn :=
+  fits.map fun f => { hsize := f.hdr.size, hpv := f.hdr.protoVer, hprofile := f.hdr.profileVer, msgs := f.msgs.map ofDecoded }
+
+/-- the fields of a decoded message that validation retains: all of them AS THEY ARE, in order, except — when the validator
+omits invalid values (`omitInv`, the default) — those whose value is invalid for the field's base type (`Value.Valid`: the
+invalid sentinel, an array of sentinels, an empty string, …); fields created by component expansion are never written -/
+def keptFields (omitInv : Bool) (m : DecApi.Msg) : List Field :=
+  (ofDecoded m).fields.filter fun f =>
+    match f.base with
+    | some b => !f.isExpanded && (!omitInv || valid f.value b.baseType)
+    | none => false
+
+/-- **what message validation retains of decoded messages** (the reading of "those same messages" in the last sentence of
+the property), stated without the validator's loops: every message with every field and developer field AS IT IS, in
+order, except the invalid-valued ones when the validator omits invalid values — a field whose value is invalid for its
+base type (`keptFields`), a developer field whose value is invalid for the base type of the FIRST field description of
+(developer data index, number) among the retained `field_description` messages so far (the message itself included).
+Nothing is restored or converted. -/
+def retained (omitInv : Bool) : Validator.State → List DecApi.Msg → List Message
+  | _, [] => []
+  | vst, m :: ms =>
+    let fs := keptFields omitInv m
+    let vst' := Validator.remember vst m.num fs
+    let ds := (ofDecoded m).devFields.filter fun d =>
+      match Validator.lookupFd vst'.fds d with
+      | some fd => !omitInv || valid d.value fd.btId
+      | none => true
+    { num := m.num, fields := fs, devFields := ds } :: retained omitInv vst' ms
+
 /-- a validated message taken literally: numbers, base types of the `FieldBase`s, values as they are -/
 def literal (m : Message) : NMsg :=
   ⟨m.num, m.fields.filterMap (fun f => f.base.map fun b => ⟨b.num, b.baseType, f.value⟩),
@@ -390,6 +434,13 @@ def kfArrV (bt : Nat) (_isBool isArray : Bool) (v : Value) : Bool :=
 (invalid UTF-8 does not pass validation) -/
 def kfFFFDV (v : Value) : Bool := !clean v || !((pieces (strList v)).all cleanStr)
 
+/-- KF-C01-emptystr: a string value read in array mode whose bytes hold an EMPTY NUL-terminated segment (an empty string in a
+string array beside other strings, two NULs in a row; NOT the single NUL that `[]`, `[""]` and `""` are all written as): the encoder writes the lone NUL, the
+decoder skips it ("only if not an invalid string") — the strings behind it move up one place (`["a","","b"]` comes back as
+`["a","b"]`), unlike the invalid elements of a numeric array, which keep their place -/
+def kfEmptyV (bt : Nat) (_isBool isArray : Bool) (v : Value) : Bool :=
+  bt == btString && isArray && isStr v && segments v != [[]] && (segments v).any (·.isEmpty)
+
 def fieldClass (p : Nat → Bool → Bool → Value → Bool) (fac : DecApi.Factory) (mesgNum : Nat) (f : Field) : Bool :=
   match f.base with
   | none => false
@@ -410,6 +461,53 @@ def seqClass (p : Nat → Bool → Bool → Value → Bool) (fac : DecApi.Factor
 def kfZero (fac : DecApi.Factory) (kept : List Message) : Bool := seqClass (fun _ _ _ v => kfZeroV v) fac {} kept
 def kfArr (fac : DecApi.Factory) (kept : List Message) : Bool := seqClass kfArrV fac {} kept
 def kfFFFD (fac : DecApi.Factory) (kept : List Message) : Bool := seqClass (fun _ _ _ v => kfFFFDV v) fac {} kept
+def kfEmpty (fac : DecApi.Factory) (kept : List Message) : Bool := seqClass kfEmptyV fac {} kept
+
+/-! ### classes of DECODER OUTPUT on which encoding and decoding again does not return the very same messages -/
+
+/-- KF-C01-undersized: a field the factory knows as an ARRAY whose definition gives it fewer bytes than one element of its
+base type — the decoder assembles the bytes into ONE number and returns it as a scalar (`convertBytesToValue`) although
+`FieldBase.Array` is set; written again it occupies one full element and comes back as a one-element array -/
+def kfUndersizedF (d : DecApi.DField) : Bool := d.known && d.array && !isSlice d.value
+
+/-- a string array with fewer than two strings -/
+def shortStrs : Value → Bool
+  | .sliceString vs => decide (vs.length < 2)
+  | _ => false
+
+/-- KF-C01-strpieces: a string field WITHOUT profile entry (or a developer field) whose bytes hold two or more non-empty
+NUL-terminated segments — the decoder decides "array" by counting them (`strcount`) — of which fewer than two survive
+the UTF-8 cleaning of `UnmarshalValue`: it returns `[]string{"a"}` / `[]string{}`; written again there is one segment
+(or none) and the value comes back as the scalar `"a"` / `""` -/
+def kfPiecesF (d : DecApi.DField) : Bool := !d.known && shortStrs d.value
+def kfPiecesD (d : DecApi.DDev) : Bool := shortStrs d.value
+
+def kfUndersized (ms : List DecApi.Msg) : Bool := ms.any fun m => m.fields.any kfUndersizedF
+def kfPieces (ms : List DecApi.Msg) : Bool := ms.any fun m => m.fields.any kfPiecesF || m.devs.any kfPiecesD
+
+def f64Typed : Value → Bool
+  | .float64 _ | .sliceFloat64 _ => true
+  | _ => false
+
+/-- the condition under which `Validate` hands a developer field's value to `scaleoffset.DiscardValue` (validator.go:187-207) -/
+def restoreApplies (vo : Validator.Options) (fd : Validator.FieldDesc) : Bool :=
+  if fd.nativeMesgNum != mesgNumInvalid && fd.nativeFieldNum != uint8Invalid then
+    let e := vo.factory fd.nativeMesgNum fd.nativeFieldNum
+    e.nameKnown && (Validator.scaleNotOne e.scale || Validator.offsetNotZero e.offset)
+  else fd.scale != uint8Invalid && fd.offset != sint8Invalid
+
+/-- KF-C01-f64dev (root: KF-C10-2): a developer field the decoder returned as a float64 / []float64 (its field description
+says base type float64) whose description carries a scale and an offset (or names a native field with a scale / offset):
+`Validate` takes every float64-typed value for a SCALED value and "restores" it — `(v + offset) * scale` — although the
+decoder returned the raw value: what is written, and comes back, is another number (1.5 under scale 2 comes back as 3.0) -/
+def kfF64Dev (vo : Validator.Options) : Validator.State → List DecApi.Msg → Bool
+  | _, [] => false
+  | vst, m :: ms =>
+    let vst' := Validator.remember vst m.num (keptFields vo.omitInvalid m)
+    ((ofDecoded m).devFields.any fun d => f64Typed d.value &&
+      (match Validator.lookupFd vst'.fds d with
+       | some fd => restoreApplies vo fd
+       | none => false)) || kfF64Dev vo vst' ms
 
 /-! ### the typing assumptions of the theorems -/
 
